@@ -105,6 +105,12 @@ pub fn run_plan<V: Variant>(plan: &WorldPlan, keys: Keys<V>, compare_sequential:
     let mut st = Stats::default();
     let n = V::N;
     let (res, sched) = signers::execute::<V>(plan, keys.clone());
+    if sched.free_running {
+        // the schedule was infeasible (a thread was pre-empted inside a critical section of the
+        // code under test and the baton holder blocked on it): inconclusive, nothing is judged
+        st.inc("inconclusive.schedule_infeasible");
+        return Verdict { class: None, stats: st };
+    }
     st.steps += sched.steps;
     st.add("sched.switches", sched.switches);
     if sched.switches > 0 {
@@ -131,7 +137,7 @@ pub fn run_plan<V: Variant>(plan: &WorldPlan, keys: Keys<V>, compare_sequential:
             log = hash_u64(log, r.digest());
             let op = &plan.threads[t][i];
             match (op, r) {
-                (Op::Sign { msg, mode, .. }, OpResult::Sig { bytes, trace, preempted }) => {
+                (Op::Sign { key, msg, mode, .. }, OpResult::Sig { bytes, trace, preempted }) => {
                     let kind = mode.as_ref().map(|m| m.kind()).unwrap_or("E5");
                     st.inc(&format!("sign.stream.{}", kind));
                     for (k, v) in &trace.landed {
@@ -159,7 +165,7 @@ pub fn run_plan<V: Variant>(plan: &WorldPlan, keys: Keys<V>, compare_sequential:
                         set(format!("signature{} encodes to {} bytes", n, bytes.len()), format!("thread {} op {}", t, i), &mut class);
                         continue;
                     }
-                    let pk = &keys[0].1;
+                    let pk = &keys[*key].1;
                     let ok = crate::guard::guarded(|| match V::sig_from_bytes(bytes) {
                         Ok(s) => Ok(V::verify(msg, &s, pk)),
                         Err(e) => Err(e),
@@ -201,8 +207,13 @@ pub fn run_plan<V: Variant>(plan: &WorldPlan, keys: Keys<V>, compare_sequential:
     }
     // interleaving must not change any signature
     if compare_sequential && class.is_none() && plan.switch_exp.is_some() {
-        let (seq, _s2) = signers::execute::<V>(&plan.sequential(), keys.clone());
+        let (seq, s2) = signers::execute::<V>(&plan.sequential(), keys.clone());
         st.inc("sequential_controls");
+        if s2.free_running {
+            st.inc("inconclusive.schedule_infeasible");
+            st.log_hash = log;
+            return Verdict { class, stats: st };
+        }
         'outer: for (t, (a, b)) in res.iter().zip(seq.iter()).enumerate() {
             if let (Ok(a), Ok(b)) = (a, b) {
                 for (i, (x, y)) in a.iter().zip(b.iter()).enumerate() {
@@ -235,11 +246,17 @@ fn run_plan_dyn(plan: &WorldPlan) -> Option<Verdict> {
 /// Shrink while the same class persists: drop threads, drop ops, no
 /// pre-emption, no buggify / entropy faults, empty messages.
 fn minimise<V: Variant>(plan: &WorldPlan, keys: Keys<V>, class: &str) -> WorldPlan {
+    // every trial in its own forked process: state the code under test may keep (caches, statics)
+    // must not leak from one trial into the next, or the minimised plan would not replay
     let same = |p: &WorldPlan| {
         if p.threads.is_empty() || p.threads.iter().all(|t| t.is_empty()) {
             return false;
         }
-        run_plan::<V>(p, keys.clone(), true).class.map(|c| c.0).as_deref() == Some(class)
+        let r = crate::isolate::isolated(
+            || run_plan::<V>(p, keys.clone(), true).class.map(|c| c.0).unwrap_or_default().into_bytes(),
+            crate::isolate::run_timeout_s(),
+        );
+        matches!(r, Ok(b) if b == class.as_bytes())
     };
     let mut cur = plan.clone();
     let mut budget = 60;
@@ -448,6 +465,10 @@ fn run_mixed(plan: &MixedPlan, k512: K512, k1024: K1024) -> (Option<(String, Str
         .collect();
     let (res, sched) = run_threads(plan.sched_seed, plan.switch_exp, plan.boundary, bodies);
     let mut st = Stats::default();
+    if sched.free_running {
+        st.inc("inconclusive.schedule_infeasible");
+        return (None, st);
+    }
     st.steps += sched.steps;
     st.add("sched.switches", sched.switches);
     if sched.switches > 0 {
@@ -558,7 +579,148 @@ fn replay_mixed(doc: &Value) -> Option<String> {
     run_mixed(&plan, Arc::new(a), Arc::new(b)).0.map(|c| c.0)
 }
 
+// ---------------------------------------------------------------------------
+// deep runs: executed by the "deep" build (falcon-rust compiled with
+// -Zinstrument-mcount, every function entry of the code under test a yield
+// point). Many distinct keys, verifier and signer threads; the scheduler can now
+// pre-empt inside verify and the decoders, where no entropy seam exists.
+// ---------------------------------------------------------------------------
+
+pub fn deep_plan(rng: &mut Prng, pool: &KeyPool<V512>) -> (WorldPlan, Vec<usize>) {
+    // use (almost) all keys of the pool in one run
+    let nkeys = pool.keys.len();
+    let used: Vec<usize> = (0..nkeys).collect();
+    let nthreads = 2 + rng.usize_below(5);
+    let mut threads = Vec::new();
+    let mut ops_total = 0u64;
+    for _ in 0..nthreads {
+        let nops = 10 + rng.usize_below(40);
+        let mut ops = Vec::new();
+        for _ in 0..nops {
+            let k = rng.usize_below(nkeys);
+            if rng.chance(1, 8) {
+                ops.push(Op::Sign { key: k, msg: world::message(rng), stream: rng.next_u64(), mode: Some(Mode::Uniform), norm_rejects: 0, compress_fails: 0 });
+                ops_total += 8000;
+            } else {
+                let (m, s) = rng.pick(&pool.keys[k].sigs).clone();
+                ops.push(Op::Verify { key: k, msg: m, sig: s });
+                ops_total += 20;
+            }
+        }
+        threads.push(ops);
+    }
+    // pre-emption budget: a verify is ~10^4 function entries, a sign ~10^5
+    // counted yield points (measured in the instrumented build, arithmetic kernels filtered out):
+    // ~20 per verify, ~8000 per sign
+    let yields = ops_total.max(1);
+    let budget = *rng.pick(&[30u64, 100, 300, 1000, 3000]);
+    let mut k = 0u32;
+    while k < 30 && (yields >> k) > budget {
+        k += 1;
+    }
+    (
+        WorldPlan {
+            n: 512,
+            key_seeds: used.iter().map(|&i| pool.keys[i].seed).collect(),
+            sched_seed: rng.next_u64(),
+            switch_exp: Some(k),
+            boundary: rng.below(257) as u32,
+            threads,
+        },
+        used,
+    )
+}
+
+fn deep_run(seed: u64, run: u64, pool: &KeyPool<V512>) -> RunOutcome {
+    let mut rng = Prng::new(report::run_seed(seed, "C01deep", run));
+    let (plan, used) = deep_plan(&mut rng, pool);
+    let mut out = RunOutcome::default();
+    let mut loaded = Vec::new();
+    for &i in &used {
+        match pool.keys[i].load() {
+            Ok(kp) => loaded.push(kp),
+            Err(_) => {
+                out.stats.inc("harness.pool_key_not_loadable");
+                return out;
+            }
+        }
+    }
+    let keys: Keys<V512> = Arc::new(loaded);
+    let e0 = 0u64;
+    let v = run_plan::<V512>(&plan, keys.clone(), true);
+    out.stats = v.stats;
+    out.stats.inc("runs");
+    out.stats.inc("runs.deep");
+    let _ = e0;
+    out.stats.add("deep.yield_points", out.stats.steps);
+    out.stats.add("deep.distinct_keys_in_run", used.len() as u64);
+    if let Some((class, detail)) = v.class {
+        let m = minimise::<V512>(&plan, keys, &class);
+        let mut doc = m.to_json();
+        doc.as_object_mut().unwrap().insert("deep".into(), json!(true));
+        doc.as_object_mut().unwrap().insert(
+            "fallback".into(),
+            json!({"kind": "deep-rerun", "deep": true, "tier": if pool.keys.len() > 30 { "thorough" } else { "quick" }, "deep_seed": seed, "deep_run": run}),
+        );
+        out.violations.push(Violation { property: PROP, class, detail: format!("deep run: {}", detail), replay: doc, run: (1 << 41) + run });
+    }
+    out
+}
+
+/// entry of the deep binary: `falcon-sim deepruns C01 <tier> <seed> <outfile>`
+pub fn deepruns_main(tier: Tier, seed: u64, outfile: &str) -> i32 {
+    let w = report::workers();
+    let (runs, nkeys) = match tier {
+        Tier::Quick => (160u64, 24usize),
+        Tier::Thorough => (4000u64, 40usize),
+    };
+    let pool: KeyPool<V512> = KeyPool::build(report::run_seed(seed, "deep-pool", 0), nkeys, 3, w);
+    if pool.keys.len() < nkeys || pool.keys.iter().any(|k| k.sigs.is_empty()) {
+        eprintln!("HARNESS-ERROR: deep key pool could not be built");
+        return 2;
+    }
+    let mut out = report::parallel_runs(runs, w, |run| deep_run(seed, run, &pool));
+    // runs of this batch whose process died are reported here (their indices are local to the deep batch)
+    for (run, what) in report::take_dead_runs(&mut out.stats) {
+        out.violations.push(Violation {
+            property: PROP,
+            class: format!("run's process died: {}", what),
+            detail: format!("deep run {}", run),
+            replay: json!({"kind": "deep-rerun", "deep": true, "tier": tier.name(), "deep_seed": seed, "deep_run": run}),
+            run: (1 << 41) + run,
+        });
+    }
+    match std::fs::write(outfile, out.to_bytes()) {
+        Ok(_) => 0,
+        Err(_) => 2,
+    }
+}
+
+fn replay_deep_rerun(doc: &Value) -> Option<String> {
+    let tier = if doc.get("tier")?.as_str()? == "thorough" { Tier::Thorough } else { Tier::Quick };
+    let seed = doc.get("deep_seed")?.as_u64()?;
+    let run = doc.get("deep_run")?.as_u64()?;
+    let nkeys = if tier == Tier::Quick { 24 } else { 40 };
+    let pool: KeyPool<V512> = KeyPool::build(report::run_seed(seed, "deep-pool", 0), nkeys, 3, report::workers());
+    let r = crate::isolate::isolated(|| deep_run(seed, run, &pool).to_bytes(), crate::isolate::run_timeout_s());
+    let want = doc.get("violation").and_then(|v| v.as_str()).unwrap_or("");
+    match r {
+        Ok(b) => {
+            let o = RunOutcome::from_bytes(&b)?;
+            if o.violations.iter().any(|v| v.class == want) {
+                Some(want.to_string())
+            } else {
+                o.violations.first().map(|v| v.class.clone())
+            }
+        }
+        Err(f) => Some(format!("run's process died: {}", f.describe())),
+    }
+}
+
 pub fn replay(doc: &Value) -> Option<String> {
+    if doc.get("kind").and_then(|k| k.as_str()) == Some("deep-rerun") {
+        return replay_deep_rerun(doc);
+    }
     if doc.get("kind").and_then(|k| k.as_str()) == Some("mixed") {
         return replay_mixed(doc);
     }
@@ -626,11 +788,32 @@ pub fn check(tier: Tier, seed: u64) -> i32 {
     };
     let out = report::parallel_runs(ctx.runs512 + ctx.runs1024 + ctx.runs_mixed, w, |run| dispatch(&ctx, seed, run));
     rep.absorb(out);
+    // deep batch (function-entry yield points), executed by the instrumented build if the check script produced one
+    match std::env::var("VERIF_DEEP_BIN").ok().filter(|p| std::path::Path::new(p).exists()) {
+        Some(bin) => {
+            let tmp = report::verif_root().join("sim").join("target").join(format!("deep-{}.out", std::process::id()));
+            let _ = std::fs::create_dir_all(tmp.parent().unwrap());
+            let st = std::process::Command::new(&bin).args(["deepruns", "C01", tier.name(), &seed.to_string(), tmp.to_str().unwrap()]).status();
+            let ok = st.map(|s| s.success()).unwrap_or(false);
+            match std::fs::read(&tmp).ok().and_then(|b| RunOutcome::from_bytes(&b)) {
+                Some(o) if ok => rep.absorb(o),
+                _ => {
+                    eprintln!("HARNESS-ERROR: the deep batch did not deliver a result");
+                    let _ = std::fs::remove_file(&tmp);
+                    return 2;
+                }
+            }
+            let _ = std::fs::remove_file(&tmp);
+        }
+        None => {
+            rep.stats.notes.insert("NOTE: no instrumented (deep) build available; the function-entry pre-emption batch was skipped".into());
+        }
+    }
     if rep.stats.counters.get("harness.pool_key_not_loadable").copied().unwrap_or(0) > 0 {
         eprintln!("HARNESS-ERROR: pool keys could not be decoded by SecretKey/PublicKey::from_bytes on this tree (see C05)");
         return 2;
     }
-    rep.rule = "a case is one sign (or verifier-thread verify) operation inside a seeded multi-thread plan: 1-8 signer threads and 0-2 verifier threads share one key under the baton scheduler (pre-emption probability 2^-k per entropy draw, k in 3..20 chosen per run from a budget of 10..6000 expected switches, plus operation boundaries), each sign with its own simulator entropy stream in mode E1/E2/E3/E4 and optional buggify-forced retries; a further eighth of the runs are mixed-variant runs in which the same threads alternate between a Falcon-512 and a Falcon-1024 key (sign, then verify on the same thread); non-trivial = the call was pre-empted mid-call, or took a natural or forced retry, or had an entropy fault land; distinct = distinct (schedule trace, thread, resulting signature)".into();
+    rep.rule = "a case is one sign (or verifier-thread verify) operation inside a seeded multi-thread plan: 1-8 signer threads and 0-2 verifier threads share one key under the baton scheduler (pre-emption probability 2^-k per entropy draw, k in 3..20 chosen per run from a budget of 10..6000 expected switches, plus operation boundaries), each sign with its own simulator entropy stream in mode E1/E2/E3/E4 and optional buggify-forced retries; a deep batch run by a build in which every function entry of the code under test is a yield point (falcon-rust compiled with -Zinstrument-mcount) puts 2-6 signer/verifier threads on 24+ distinct keys so that the scheduler can pre-empt inside verify and the decoders; a further eighth of the runs are mixed-variant runs in which the same threads alternate between a Falcon-512 and a Falcon-1024 key (sign, then verify on the same thread); non-trivial = the call was pre-empted mid-call, or took a natural or forced retry, or had an entropy fault land; distinct = distinct (schedule trace, thread, resulting signature)".into();
     rep.assumptions = vec![
         "all of sign's randomness flows through the hooked generator (hook H1); a generator created elsewhere is only visible to C08(b) and to the interleaved==sequential comparison".into(),
         "keys come from a per-invocation pool generated by the current tree".into(),
